@@ -1,7 +1,7 @@
 (* Correspondence obligations for C13: the model's per-thread results and parse counts on the
    (configuration, program, schedule) triples that the harness drove the real goroutines through. *)
 From Coq Require Import ZArith NArith Arith Bool List.
-From PcoreV Require Import Model.Base Model.Conc Model.ConcLazy.
+From PcoreV Require Import Model.Base Model.Conc Model.ConcLazy Model.ConcReg.
 Import ListNotations.
 
 Definition val_eqb (a b : val) : bool :=
@@ -13,6 +13,7 @@ Definition res_eqb (a b : res) : bool :=
   | RDefined x, RDefined y => val_eqb x y
   | RBool x, RBool y => Bool.eqb x y
   | RErr, RErr => true
+  | RFileErr, RFileErr => true
   | RFault, RFault => true
   | _, _ => false
   end.
@@ -58,3 +59,38 @@ Definition lazy_check (c : lazy_case) : bool :=
   let st := lexec (fun c => nth c pfs false) p s in
   lall_done st (length p) && Nat.eqb (length o) (length p) && lazy_threads (ls_log st) 0 o.
 Definition lazy_mismatches (cs : list lazy_case) : list N := failing lazy_check cs.
+
+
+(* ---- pending declarations and pcore.Do (Model/ConcReg.v): per thread the results in program order (for a Do whose
+   function ran: is each item that the thread declared before usable, in order) and the probes - declarations that
+   count the calls of their Resolve - that the thread resolved (as a set: the harness does not record the order) *)
+Inductive rres_o := ORDeclared | ORDone (bs : list bool) | ORPanic.
+Definition rres_eqb (m : rres) (o : rres_o) : bool :=
+  match m, o with
+  | RRDeclared, ORDeclared => true
+  | RRDone obs, ORDone bs => list_eqb Bool.eqb (map snd obs) bs
+  | RRPanic, ORPanic => true
+  | _, _ => false
+  end.
+Fixpoint rres_list_eqb (m : list rres) (o : list rres_o) : bool :=
+  match m, o with
+  | [], [] => true
+  | x :: m', y :: o' => rres_eqb x y && rres_list_eqb m' o'
+  | _, _ => false
+  end.
+Definition is_probe (x : item) : bool := match fst x with KP | KX => true | _ => false end.
+Definition same_items (a b : list item) : bool :=
+  Nat.eqb (length a) (length b) && forallb (fun x => mem x b) a && forallb (fun x => mem x a) b.
+Definition robs := (list rres_o * list item)%type.
+Definition reg_case := (rprog * sched * list robs)%type.
+Fixpoint reg_threads (log : list rev) (t : nat) (os : list robs) : bool :=
+  match os with
+  | [] => true
+  | o :: os' => rres_list_eqb (rresults_of t log) (fst o) &&
+                same_items (filter is_probe (resolved_by t log)) (snd o) && reg_threads log (S t) os'
+  end.
+Definition reg_check (c : reg_case) : bool :=
+  let '(p, s, o) := c in
+  let st := rexec p s in
+  rall_done st (length p) && Nat.eqb (length o) (length p) && reg_threads (rs_log st) 0 o.
+Definition reg_mismatches (cs : list reg_case) : list N := failing reg_check cs.
